@@ -18,7 +18,9 @@ Types == {"str", "lcstr", "float", "fint", "fbool", "fboolorfloat",
 
 \* payload identifiers per type (the adapter concretises them)
 Payloads(t) ==
-    CASE t = "str" -> {"text", "Mixed Case Text", "unicode"}
+    \* "numeric text" / "yes-no text": strings that look like a number / a truth
+    \* value and must stay the strings they are
+    CASE t = "str" -> {"text", "Mixed Case Text", "unicode", "numeric text", "yes-no text"}
       [] t = "lcstr" -> {"lower"}
       [] t = "float" -> {"1.5", "0", "-2", "1e-7", "3 (integral)"}
       [] t = "fint" -> {"3", "0", "1"}
@@ -51,7 +53,9 @@ Reprs(t, p) ==
       [] t = "f2dfloatarray" -> {"list", "numpy array"}
 
 Rejected == {"empty string", "none", "unknown key"}
-Routes == {"setitem", "setitem other case", "update", "constructor", "file"}
+\* "file other case": a configuration file whose key names are capitalised
+Routes == {"setitem", "setitem other case", "update", "constructor", "file",
+           "file other case"}
 
 \* ---- part A: assignment cases with what must be stored afterwards ----
 AssignCases ==
@@ -64,7 +68,7 @@ ValidCase(c) == c.payload \in Payloads(c.type) /\ c.repr \in Reprs(c.type, c.pay
 
 RejectCases ==
     {[type |-> t, payload |-> "n/a", repr |-> r, route |-> ro, stored |-> FALSE]
-        : t \in Types, r \in Rejected, ro \in Routes \ {"file"}}
+        : t \in Types, r \in Rejected, ro \in Routes \ {"file", "file other case"}}
 
 \* ---- part B: storage pipelines are the identity ----
 Steps == {"write_read", "export", "compress", "repack", "text"}
